@@ -354,7 +354,7 @@ def run_shard(ctx, budget_s):
                     done_all = False
                     break
                 run_one(ctx, wl, idx)
-            if wl.exhaustive:
+            if wl.exhaustive and total > 0:
                 ctx.exhaustive_done[wl.name] = done_all
     except StopRun:
         pass
